@@ -1,7 +1,14 @@
-(* C01 - TL codec round trip.  Statements only; proofs in TL/*.v.
-   (The value-level round-trip theorem is added from TL/RoundTrip.v.) *)
+(* C01 - TL codec round trip: decoding an encoded value returns the same value.
+   Statements only; proofs in TL/RoundTrip.v, TL/Types.v.
+
+   U       the type universe (struct descriptors, enum types, registry), ANY universe
+   wt      typing of a value against a field type; includes wf_struct of every struct met
+   norm    what the wire can carry of a value: nil slices come back empty, a `true`-typed
+           member of a flag group comes back as the group's presence, absent members as zero
+   pseudo_ok  the three pseudo objects behind the Bool/Null ids have no fields
+   The decoder is run with any sufficient fuel (TL/Total.v shows input-linear fuel suffices). *)
 From Coq Require Import NArith List.
-From MTV Require Import Base.Bytes Base.Outcome TL.Types TL.Codec TL.Typing.
+From MTV Require Import Base.Bytes Base.Outcome TL.Types TL.Codec TL.Typing TL.RoundTrip.
 Import ListNotations.
 Open Scope N_scope.
 
@@ -9,3 +16,56 @@ Open Scope N_scope.
 Theorem C01_bytes_roundtrip : forall m bs rest, put_bytes m = Some bs -> pop_bytes (bs ++ rest) = Some (m, rest).
 Proof. exact pop_put. Qed.
 Print Assumptions C01_bytes_roundtrip.
+
+(* the general statement: any field type, any value, any trailing bytes, any hints *)
+Theorem C01_roundtrip : forall U inflate, pseudo_ok U = true ->
+  forall v t bs, wt U t v = true -> enc U v = Ok bs ->
+  forall h rest, exists f0, forall f, (f0 <= f)%nat ->
+    dec U inflate f (JVal t) (h, bs ++ rest) = DOk ([norm U v], (h, rest)).
+Proof. exact roundtrip. Qed.
+Print Assumptions C01_roundtrip.
+
+(* entry point 1: naming the expected type (tl.Decode) *)
+Theorem C01_roundtrip_named : forall U inflate, pseudo_ok U = true ->
+  forall tid fs bs, wt U (TPtr tid) (VObj tid fs) = true -> enc U (VObj tid fs) = Ok bs ->
+  exists f0, forall f, (f0 <= f)%nat -> decode_named U inflate f tid bs = DOk (norm U (VObj tid fs)).
+Proof. exact roundtrip_named. Qed.
+Print Assumptions C01_roundtrip_named.
+
+(* entry point 2: the decoder chooses the type from the constructor id (tl.DecodeUnknownObject) *)
+Theorem C01_roundtrip_unknown : forall U inflate, pseudo_ok U = true ->
+  forall tid fs bs, wt U (TIface 0) (VObj tid fs) = true -> enc U (VObj tid fs) = Ok bs ->
+  exists f0, forall f, (f0 <= f)%nat -> decode_unknown U inflate f [] bs = DOk (norm U (VObj tid fs)).
+Proof. exact roundtrip_unknown. Qed.
+Print Assumptions C01_roundtrip_unknown.
+
+(* a conditional group counts as present exactly when at least one of its fields is non-zero *)
+Theorem C01_group_presence : forall fds vs b, forallb tag_ok fds = true ->
+  (N.testbit (flags_of fds vs) b = true <->
+   exists j fd v, nth_error fds j = Some fd /\ nth_error vs j = Some v /\
+                  tag_bit (f_tag fd) = Some b /\ is_zero v = false).
+Proof. exact flags_bit_iff. Qed.
+Print Assumptions C01_group_presence.
+
+(* ... and then every field of the group survives the trip, zero-valued ones included *)
+Theorem C01_present_member_survives : forall U fl fds vs j fd v b,
+  nth_error fds j = Some fd -> nth_error vs j = Some v -> f_tag fd = TagFlag b ->
+  N.testbit fl b = true -> nth_error (norm_fields U fl fds vs) j = Some (norm U v).
+Proof. exact present_member_survives. Qed.
+Print Assumptions C01_present_member_survives.
+
+(* the normal form is a fixed point and has the same encoding: a second trip changes nothing,
+   and "equal to the original" means equal up to what the wire cannot express *)
+Theorem C01_norm_idempotent : forall U t v, wt U t v = true -> norm U (norm U v) = norm U v.
+Proof. exact norm_idem. Qed.
+Print Assumptions C01_norm_idempotent.
+
+Theorem C01_norm_same_bytes : forall U t v, wt U t v = true -> enc U (norm U v) = enc U v.
+Proof. exact enc_norm. Qed.
+Print Assumptions C01_norm_same_bytes.
+
+(* serialising the same value twice gives identical bytes: enc is a function of the value
+   and the universe alone (no map order, no addresses); the correspondence marshals twice *)
+Theorem C01_deterministic : forall U v b1 b2, enc U v = Ok b1 -> enc U v = Ok b2 -> b1 = b2.
+Proof. intros U v b1 b2 H1 H2. rewrite H1 in H2. now apply Ok_inj in H2. Qed.
+Print Assumptions C01_deterministic.
